@@ -1,6 +1,7 @@
 from tartiflette.constants import UNDEFINED_VALUE
 from tartiflette.language.ast import (
     DirectiveNode,
+    EnumValueNode,
     ListValueNode,
     NullValueNode,
     ObjectValueNode,
@@ -221,14 +222,14 @@ class ValuesOfCorrectType(June2018ReleaseValidationRule):
             )
             return errors
 
-        if isinstance(
-            r_argument_schema_type, GraphQLEnumType
-        ) and value_node.value not in [
-            x.value for x in r_argument_schema_type.values
-        ]:
+        if isinstance(r_argument_schema_type, GraphQLEnumType) and (
+            not isinstance(value_node, EnumValueNode)
+            or value_node.value
+            not in [x.value for x in r_argument_schema_type.values]
+        ):
             errors.append(
                 graphql_error_from_nodes(
-                    message=f"Value {value_node.value} is not a valid value for enum {r_argument_schema_type.name}",
+                    message=f"Value {getattr(value_node, 'value', value_node)} is not a valid value for enum {r_argument_schema_type.name}",
                     nodes=arg,
                     path=path,
                     extensions=self._extensions,
